@@ -1,12 +1,16 @@
 package main
 
 import (
+	"bufio"
 	"bytes"
+	"context"
 	"fmt"
 	"io"
 	"io/ioutil"
+	"net"
 	"net/url"
 	"strings"
+	"time"
 	"unsafe"
 
 	"github.com/gobwas/ws"
@@ -118,6 +122,38 @@ func init() {
 					c17Z(c, name, n, v)
 				}
 			}
+		}
+	})
+	// C11: debug wrappers must not change the outcome — also for requests net/http refuses or reads
+	// differently, and for dialers with a byte-transforming WrapConn
+	replayers["DBU2"] = func(c *ctx, in []string) { dbu2(c, unhx(in[0])) }
+	replayers["DBD2"] = func(c *ctx, in []string) {
+		var v int
+		fmt.Sscan(in[0], &v)
+		dbd2(c, v)
+	}
+	wrap("C11", func(c *ctx) {
+		base := hsRequest
+		vars := []string{
+			base,
+			strings.Replace(base, "Host: example.com\r\n", "Host: example.com\r\nX-No-Colon-Line\r\n", 1),
+			strings.Replace(base, "Host: example.com\r\n", "Host: example.com\r\nContent-Length: abc\r\n", 1),
+			strings.Replace(base, "Host: example.com\r\n", "Host: example.com\r\nX-(odd): 1\r\n", 1),
+			strings.Replace(base, "Host: example.com\r\n", "Host: example.com\r\nContent-Length: 0\r\nX-A: b\r\n", 1),
+			strings.ReplaceAll(base, "\r\n", "\n"),
+			strings.Replace(base, "HTTP/1.1", "HTTP/1.0", 1),
+			strings.Replace(base, "GET ", "POST ", 1),
+			strings.Replace(base, "Upgrade: websocket\r\n", "", 1),
+			strings.Replace(base, "Sec-WebSocket-Version: 13", "Sec-WebSocket-Version: 12", 1),
+			strings.Replace(base, "Host: example.com\r\n", "Host: example.com\r\nTransfer-Encoding: bogus\r\n", 1),
+			strings.Replace(base, "Host: example.com\r\n", " folded: x\r\nHost: example.com\r\n", 1),
+			base + "\x81\x02hi",
+		}
+		for _, v := range vars {
+			dbu2(c, []byte(v))
+		}
+		for v := 0; v < 4; v++ {
+			dbd2(c, v)
 		}
 	})
 	// C14: one negotiator reused with a DIFFERENT configuration after Reset behaves as a new one
@@ -276,6 +312,113 @@ func c17Z(c *ctx, name string, n, variant int) {
 		status = st
 	}
 	c.emit("C17Z %s %d %d -> %d %d %s", name, n, variant, b2i(intact), b2i(aliased), status)
+}
+
+// DBU: the same request through ws.Upgrader and through wsutil.DebugUpgrader
+func dbu2(c *ctx, req []byte) {
+	up := ws.Upgrader{Protocol: func(p []byte) bool { return string(p) == "chat" }}
+	d1 := newRecWriter()
+	var e1, e2 error
+	r1 := fzRun(func() error {
+		_, e1 = up.Upgrade(&rwPair{r: bytes.NewReader(req), w: d1})
+		return e1
+	})
+	d2 := newRecWriter()
+	var onReq, onResp []byte
+	called := 0
+	r2 := fzRun(func() error {
+		du := wsutil.DebugUpgrader{Upgrader: up,
+			OnRequest:  func(b []byte) { onReq = append([]byte(nil), b...); called |= 1 },
+			OnResponse: func(b []byte) { onResp = append([]byte(nil), b...); called |= 2 }}
+		_, e2 = du.Upgrade(&rwPair{r: bytes.NewReader(req), w: d2})
+		return e2
+	})
+	c.emit("DBU2 %s -> %s.%d.%s %s.%d.%s %d %d %d", hx(req), r1.class, b2i(e1 == nil), hx(d1.all()), r2.class, b2i(e2 == nil), hx(d2.all()),
+		called, b2i(bytes.HasPrefix(req, onReq)), b2i(bytes.Equal(onResp, d2.all())))
+}
+
+// xorConn is a byte-transforming transport (what Dialer.WrapConn is for)
+type xorConn struct{ net.Conn }
+
+func (x xorConn) Read(p []byte) (int, error) {
+	n, err := x.Conn.Read(p)
+	for i := 0; i < n; i++ {
+		p[i] ^= 0x5a
+	}
+	return n, err
+}
+func (x xorConn) Write(p []byte) (int, error) {
+	q := make([]byte, len(p))
+	for i := range p {
+		q[i] = p[i] ^ 0x5a
+	}
+	return x.Conn.Write(q)
+}
+
+// DBD: a ws.Dialer (variant bit0: with a transforming WrapConn, bit1: server sends a frame right
+// behind the response) against a real ws.Upgrade server over net.Pipe — plain and through DebugDialer
+func dbd2(c *ctx, variant int) {
+	run := func(debug bool) string {
+		cl, sv := net.Pipe()
+		deadline := time.Now().Add(3 * time.Second)
+		cl.SetDeadline(deadline)
+		sv.SetDeadline(deadline)
+		go func() {
+			var conn net.Conn = sv
+			if variant&1 != 0 {
+				conn = xorConn{sv}
+			}
+			if _, err := ws.Upgrade(conn); err == nil {
+				ws.WriteFrame(conn, ws.NewTextFrame([]byte("hi")))
+			}
+			time.Sleep(20 * time.Millisecond)
+			sv.Close()
+		}()
+		d := ws.Dialer{NetDial: func(ctx context.Context, network, addr string) (net.Conn, error) { return cl, nil }}
+		if variant&1 != 0 {
+			d.WrapConn = func(c net.Conn) net.Conn { return xorConn{c} }
+		}
+		if variant&2 != 0 {
+			d.ReadBufferSize = 16
+		}
+		var conn net.Conn
+		var br *bufio.Reader
+		var err error
+		seen := 0
+		if debug {
+			dd := wsutil.DebugDialer{Dialer: d, OnRequest: func(b []byte) { seen |= 1 }, OnResponse: func(b []byte) {
+				if bytes.HasPrefix(b, []byte("HTTP/1.1 101")) && bytes.HasSuffix(b, []byte("\r\n\r\n")) {
+					seen |= 2
+				}
+			}}
+			conn, br, _, err = dd.Dial(context.Background(), "ws://example.com/x")
+		} else {
+			conn, br, _, err = d.Dial(context.Background(), "ws://example.com/x")
+			seen = 3
+		}
+		if err != nil {
+			return "dialerr"
+		}
+		var r io.Reader = conn
+		if br != nil {
+			r = br
+		}
+		f, err := ws.ReadFrame(r)
+		if err != nil {
+			return "readerr"
+		}
+		return fmt.Sprintf("ok:%s:%d", hx(f.Payload), seen)
+	}
+	var a, b string
+	ra := fzRun(func() error { a = run(false); return nil })
+	rb := fzRun(func() error { b = run(true); return nil })
+	if ra.class != "ok" {
+		a = ra.class
+	}
+	if rb.class != "ok" {
+		b = rb.class
+	}
+	c.emit("DBD2 %d -> %s %s", variant, a, b)
 }
 
 func c14Params(s string) wsflate.Parameters {
